@@ -192,6 +192,18 @@ impl BusSim {
         self.ports[id as usize].rx.len()
     }
 
+    /// A transmitter dies: the bytes of its transmission that are not complete yet never appear.
+    pub fn abort_tx(&mut self, id: u8, now_us: i64) {
+        let now = self.scaled(now_us);
+        self.stream.retain(|b| !(b.sender == id && b.done > now));
+        let p = &mut self.ports[id as usize];
+        if p.tx_end > now {
+            p.tx_end = now;
+        }
+        let latest = self.stream.iter().map(|b| b.done).max().unwrap_or(now);
+        self.busy_until = self.busy_until.min(latest.max(now));
+    }
+
     /// Drop stream bytes that every port has consumed.
     pub fn gc(&mut self) {
         let min = self.ports.iter().map(|p| p.cursor).min().unwrap_or(self.base);
